@@ -127,7 +127,7 @@ def run(ctx):
         if len(ctx.samples) < 3:
             with open(trace) as f:
                 ctx.samples.append({"sim": name, "first_events": [next(f).strip() for _ in range(6)]})
-    if not judged_any:
+    if not judged_any and not ctx.violations:
         raise ToolError("vacuity: no window was judged in any run")
     ctx.exhaustive = False
     return ctx.finish(rule="one case = one simulated execution (chaotic prefix, then timely network) validated event "
